@@ -42,6 +42,9 @@ NOTES = {
  "C15b": "round 2; first missed; rule C15 R4 (enumerate() directly over the page list) added",
  "C16b": "round 2; first missed; rule C16 R6 (the complete key list reaches collision_font_mapping) added",
  "C17b": "round 2; first missed; rule C17 R5 (every edit of a batch is written: the latest wins) added",
+ "C18b": "round 2; caught by C18 R1/R2 as first written (the visited test left the pop site; the work-stack push count changed)",
+ "C20b": "round 2; caught by the order-taint rule as first written (hash iteration reaching allocate_object_id)",
+ "C25b": "round 2; first missed; rule C25 R7 (u8 ranges that fill encoding tables end inclusively at 0xFF) added",
  "C22b": "round 2; first missed; rule C22 R6 (shared atomic counters are updated by one read-modify-write, never load-then-store) added",
  "C11b": "round 2; first missed; rule C11 R7 (fonts are installed under their resource name unconditionally) added",
 }
